@@ -225,7 +225,7 @@ func run(args []string) error {
 	f := ParseFlags("c23", args)
 	logging.Disable()
 	r := NewRng(f.Seed)
-	n := f.Budget(10, 300)
+	n := f.Budget(6, 300)
 	o := NewOut()
 	hist := Hist{}
 	caseJSON := map[string][]map[string]interface{}{}
@@ -285,7 +285,7 @@ func run(args []string) error {
 				seen[uint64(m)] = true
 				add(it, uint64(m), direct, "boundary")
 			}
-			if i < 2 { // every max from 0 to header + 3 items (+2)
+			if i < 2 && (f.Tier != "quick" || i < 1) { // every max from 0 to header + 3 items (+2)
 				lim := int64(12 + 2)
 				for j := 0; j < len(it.sizes) && j < 3; j++ {
 					lim += int64(it.sizes[j])
